@@ -110,6 +110,7 @@ package bufimageutil
 //@   property C12
 //@   modifies heap
 //@   ensures no-options-identity: len(options) == 0 ==> r == image && err == nil
+//@   assert before "return image, nil"@2 unfiltered-only-without-type-filters: len(filterOptions.excludeTypes) == 0 && len(filterOptions.includeTypes) == 0
 //@   canary ensures r == image
 //
 //@ func errorUnsupportedFilterType(descriptor, fullName) (r)
